@@ -15,6 +15,7 @@
 package main
 
 import (
+	"context"
 	"crypto/sha256"
 	"encoding/hex"
 	"encoding/json"
@@ -351,7 +352,14 @@ import "fmt"
 
 var Out []string
 
-func ev(k, a int)    {}
+var nev int
+
+func ev(k, a int) {
+	nev++
+	if nev > %d {
+		panic("event budget")
+	}
+}
 func emit(x int)     { Out = append(Out, fmt.Sprint(x)) }
 func emitb(x bool)   { Out = append(Out, fmt.Sprint(x)) }
 func emits(x string) { Out = append(Out, "s:"+x) }
@@ -373,7 +381,7 @@ func buildOracle(a *vh.Args, progs []*program, base int) (map[int][]string, erro
 	for i, p := range progs {
 		pkg := fmt.Sprintf("p%d", base+i)
 		os.MkdirAll(filepath.Join(dir, pkg), 0o755)
-		src := fmt.Sprintf(oraclePrelude, pkg, p.Run) + strings.Join(p.Decls, "\n")
+		src := fmt.Sprintf(oraclePrelude, pkg, maxEvents, p.Run) + strings.Join(p.Decls, "\n")
 		os.WriteFile(filepath.Join(dir, pkg, "p.go"), []byte(src), 0o644)
 		fmt.Fprintf(&imports, "\t\"c06oracle/%s\"\n", pkg)
 		fmt.Fprintf(&calls, "\tone(%d, %s.Run, &%s.Out)\n", base+i, pkg, pkg)
@@ -390,6 +398,8 @@ import (
 func classify(p interface{}) string {
 	s := fmt.Sprint(p)
 	switch {
+	case s == "event budget":
+		return "overflow"
 	case strings.Contains(s, "nil pointer") || strings.Contains(s, "nil map") || strings.Contains(s, "invalid memory"):
 		return "panic:nil"
 	case strings.Contains(s, "index out of range"):
@@ -420,7 +430,9 @@ func main() {
 	if out, err := cmd.CombinedOutput(); err != nil {
 		return nil, fmt.Errorf("go build of the oracle batch failed: %v\n%s", err, out)
 	}
-	run := exec.Command(filepath.Join(dir, "oracle.bin"))
+	ctx, cancel := context.WithTimeout(context.Background(), 5*time.Minute)
+	defer cancel()
+	run := exec.CommandContext(ctx, filepath.Join(dir, "oracle.bin"))
 	run.Dir = dir
 	outb, err := run.Output()
 	if err != nil {
@@ -490,10 +502,12 @@ func main() {
 		"&x of int-slot and val-slot variables at upn 0..n, closures and pointers escaping through results, global slices, maps and struct fields, method values and method expressions; "+
 		"every declaration evaluated by its own Eval, then run() evaluated: (a) normally (b) with the pool poisoned at every probe (c) compiled Go. "+
 		"A program is non-trivial when it performed >=1 pool hit (a frame taken from the pool) and created >=1 closure or int pointer that was used after its creating call returned; distinct by SHA-256 of the source")
-	n := 120
+	n, perShard := 120, 20
 	if a.Thorough() {
-		n = 2500
+		n, perShard = 2500, 320
 	}
+	t0 := time.Now()
+	lap := func(what string) { fmt.Fprintf(os.Stderr, "[c06] %-28s %6.1fs\n", what, time.Since(t0).Seconds()) }
 	if a.N > 0 {
 		n = a.N
 	}
@@ -535,10 +549,12 @@ func main() {
 	}
 	nCorpus := len(progs)
 	normal, poisoned := newRunner(false), newRunner(true)
+	lap("interpreters created")
 	// canaries: does the tree under test still show the known findings?  (their exact inputs are in corpus/C06)
 	var av avoid
 	av.NamedReturn = !normal.canary(`func Canary1() (a int, b int) { a = 1; return 5, a + 1 }`, `Canary1()`, "5 2")
 	av.AddrComplex = !normal.canary(`func Canary2() int { var c complex128 = 1; p := &c; *p += 2; return int(real(c)) }`, `Canary2()`, "3")
+	av.MethodValue = !normal.canary(`type Canary3 struct{ n int }; func (t Canary3) Get() int { return t.n }`, `c3 := &Canary3{1}; m3 := c3.Get; c3.n = 2; m3()`, "1")
 	for i := 0; i < n; i++ {
 		sub := rng.Fork()
 		p := genProgram(sub, nCorpus+i, av)
@@ -549,6 +565,7 @@ func main() {
 		inputs[i].Idx = i
 	}
 
+	lap("programs generated")
 	// (c) compiled Go, in batches
 	want := map[int][]string{}
 	const batch = 150
@@ -568,9 +585,10 @@ func main() {
 		}
 	}
 
-	cw := vh.NewCases(a, "From Coq Require Import List ZArith.\nFrom Verif Require Import C06.Model.\nImport ListNotations.", "case", "mismatches", 8)
+	lap("oracle built and run")
+	cw := vh.NewCases(a, "From Coq Require Import List ZArith.\nFrom Verif Require Import C06.Model.\nImport ListNotations.", "case", "mismatches", perShard)
 	wd := vh.NewWatchdog(rep, 60*time.Second)
-	skipped := 0
+	skipped, nCases := 0, 0
 	totalOps := map[string]int{}
 	for idx, p := range progs {
 		wd.Beat(inputs[idx])
@@ -581,6 +599,10 @@ func main() {
 				key = "corpus:" + inputs[idx].Corpus
 			}
 			rep.Fail(vh.Failure{Key: key, What: what, Input: inputs[idx], Got: got, Want: want})
+		}
+		if w := want[idx]; len(w) > 0 && w[len(w)-1] == "overflow" {
+			skipped++ // more than maxEvents probes: too long for the quick comparison, dropped on both sides
+			continue
 		}
 		t1, cerr := normal.exec(p)
 		if cerr != "" {
@@ -633,7 +655,12 @@ func main() {
 			continue
 		}
 		dump := normal.dump()
-		cw.Add(fmt.Sprintf("mkCase %d %s %s %d", idx, vh.CoqList(items, "item"), vh.CoqList(dump, "fdump"), len(normal.order)))
+		if inputs[idx].Corpus == "" && a.Replay == "" { // corpus programs are not fully instrumented: direct oracle only
+			nCases++
+		}
+		if inputs[idx].Corpus == "" && a.Replay == "" {
+			cw.Add(fmt.Sprintf("mkCase %d %s %s %d", idx, vh.CoqList(items, "item"), vh.CoqList(dump, "fdump"), len(normal.order)))
+		}
 		hits := 0
 		for i, e := range normal.events {
 			if (e.kind == evCall || e.kind == evBlock) && i > 0 && normal.events[i-1].pool > e.pool {
@@ -666,10 +693,26 @@ func main() {
 		}
 		rep.CaseInput(idx, inputs[idx])
 	}
+	// synthetic operation histories (reads and writes through variables, closures and pointers included): the
+	// frame machine with a small pool and with capacity 32 must refine the Go-spec machine (evaluated by vm_compute;
+	// the refinement is proved only in the partial forms of Props.v)
+	nHist := 150
+	if a.Thorough() {
+		nHist = 3000
+	}
+	if a.Replay != "" {
+		nHist = 0
+	}
+	for h := 0; h < nHist; h++ {
+		cw.Add(fmt.Sprintf("mkHist %d %d %s", len(progs)+h, 1+rng.Intn(3), vh.CoqList(randomHistory(rng.Fork(), 40+rng.Intn(80)), "op")))
+	}
+	rep.Extra["synthetic_histories_refinement_checked"] = nHist
 	cw.Close()
+	lap("gomacro runs done")
 	rep.Extra["frame_ops_replayed_by_model"] = totalOps
 	rep.Extra["programs_skipped_event_budget"] = skipped
 	rep.Extra["corpus_programs"] = nCorpus
+	rep.Extra["programs_replayed_by_model"] = nCases
 	rep.Extra["generator_avoids_known_finding_classes"] = av
 	rep.Extra["poison_rounds"] = poisoned.npoison
 	rep.Write()
@@ -699,4 +742,73 @@ func bucket(n int) string {
 		return "100-999"
 	}
 	return ">=1000"
+}
+
+// randomHistory: a random walk over the model's operations that keeps most of them applicable
+func randomHistory(r *vh.Rng, n int) []string {
+	type fr struct{ ni int }
+	calls := [][]fr{{{0}}} // frames of each active call, innermost last
+	nclos, nptr := 1, 0
+	var ops []string
+	z := func() string { return vh.CoqZ(int64(r.Intn(50))) }
+	depthUp := func() int { // how many frames can be walked up from the current one (at least inside the call)
+		return len(calls[len(calls)-1]) - 1
+	}
+	for i := 0; i < n; i++ {
+		cur := calls[len(calls)-1]
+		top := cur[len(cur)-1]
+		switch x := r.Intn(20); {
+		case x < 4:
+			ni := r.Intn(4)
+			var args []string
+			for k := 0; k < r.Intn(ni+1); k++ {
+				args = append(args, z())
+			}
+			ops = append(ops, fmt.Sprintf("OCall %d %d %d %s", r.Intn(nclos), r.Intn(3), ni, vh.CoqList(args, "Z")))
+			calls = append(calls, []fr{{ni}})
+		case x < 7:
+			if len(calls) > 1 {
+				fn := cur[0]
+				var rs []string
+				for k := 0; k < r.Intn(3); k++ {
+					rs = append(rs, fmt.Sprint(r.Intn(fn.ni+1)))
+				}
+				ops = append(ops, fmt.Sprintf("ORet %s", vh.CoqList(rs, "nat")))
+				calls = calls[:len(calls)-1]
+			} else {
+				ops = append(ops, "ORet []") // not applicable at top level: both machines must say so
+			}
+		case x < 9:
+			ni := r.Intn(3)
+			ops = append(ops, fmt.Sprintf("OBlock %d %d", r.Intn(2), ni))
+			calls[len(calls)-1] = append(cur, fr{ni})
+		case x < 10:
+			ops = append(ops, "OBlockEnd")
+			if len(cur) > 1 {
+				calls[len(calls)-1] = cur[:len(cur)-1]
+			}
+		case x < 11:
+			k := r.Intn(3)
+			ops = append(ops, fmt.Sprintf("OLeave %d", k))
+			if k < len(cur) {
+				calls[len(calls)-1] = cur[:len(cur)-k]
+			}
+		case x < 13:
+			ops = append(ops, "OClosure")
+			nclos++
+		case x < 14:
+			up := r.Intn(depthUp() + 2)
+			ops = append(ops, fmt.Sprintf("OAddr %d %d", up, r.Intn(top.ni+1)))
+			nptr++ // may be one too many when the operation is not applicable: later uses are then RBad on both sides
+		case x < 16:
+			ops = append(ops, fmt.Sprintf("OSet %d %d %s", r.Intn(depthUp()+2), r.Intn(top.ni+1), z()))
+		case x < 18:
+			ops = append(ops, fmt.Sprintf("OGet %d %d", r.Intn(depthUp()+2), r.Intn(top.ni+1)))
+		case x < 19:
+			ops = append(ops, fmt.Sprintf("OPSet %d %s", r.Intn(nptr+1), z()))
+		default:
+			ops = append(ops, fmt.Sprintf("OPGet %d", r.Intn(nptr+1)))
+		}
+	}
+	return ops
 }
